@@ -639,7 +639,8 @@ fn tombstone_dup(ps: &[Rc<Payload>]) -> bool {
 fn tombstone_dup_with(ps: &[Rc<Payload>], base: Option<&yrs::Doc>) -> bool {
     let mut sets: Vec<Vec<(yrs::ID, u32, &'static str)>> = ps
         .iter()
-        .filter_map(|p| Update::decode_v1(&p.v1).ok())
+        // a payload of the pool may exist in one encoding only (the output of an earlier merge)
+        .filter_map(|p| if p.v1.is_empty() { Update::decode_v2(&p.v2).ok() } else { Update::decode_v1(&p.v1).ok() })
         .map(|u| yrs::verif::update_blocks(&u))
         .collect();
     if let Some(doc) = base {
@@ -700,6 +701,9 @@ fn relay_algebra(w: &mut World, n: usize, a: &[u64]) -> VResult {
     }
     let t1 = clone_from(w, n)?;
     let t2 = clone_from(w, n)?;
+    // (the clones are rebuilt from the node's full state: what the node integrated behind a gap
+    // sits in their stash, so it is their stash that is searched for the other version of a block)
+    let lossy = tombstone_dup_with(&ps, Some(&t2)) || tombstone_dup_with(&ps, Some(&w.nodes[n].doc));
     if let Err(e) = apply_payload(&t1, &merged, enc) {
         return Err(viol("relay.merge", format!("cannot apply the merge of {} valid payloads ({:?}): {}", ps.len(), enc, e)));
     }
@@ -710,7 +714,6 @@ fn relay_algebra(w: &mut World, n: usize, a: &[u64]) -> VResult {
     }
     // known finding F20 is identified by its input shape: two payloads carry the same block, one
     // with live content and one as a tombstone (content already garbage collected at its sender)
-    let lossy = tombstone_dup_with(&ps, Some(&w.nodes[n].doc));
     let id = if lossy { "relay.merge-tombstone-dup" } else { "relay.merge" };
     compare_twins(w, id, &t1, &t2, &format!("merge_updates of {} payloads (mode {}) vs. applying them one by one on clones of node {}", ps.len(), mode & 7, n))?;
     // 2. two nestings / orders of the same multiset are equivalent
